@@ -317,9 +317,8 @@ class Folder(FileSystemItemABC):
 
         file.restore()
         self.files[file.uuid] = file
-
-        if file.deleted:
-            self.deleted_files.pop(file.uuid)
+        # file.restore() has already cleared file.deleted, so do not test it here
+        self.deleted_files.pop(file.uuid, None)
         return True
 
     def quarantine(self):
